@@ -360,25 +360,25 @@ int main(int argc, char** argv)
     std::vector<std::string> const both{"quick", "thorough"};
 #if defined(MC_FLAVOUR_SAN)
     // sanitizer build: only the raw-pointer jobs (the wrappers check their own ranges; keeps the compile small)
-    m.job("permute/ptr", both, [](mc::Reporter& r) { job_permute<PtrF>(r, 5, 7); });
-    m.job("sort/ptr", both, [](mc::Reporter& r) { job_sort<PtrF>(r, 5, 7); });
+    m.job("permute/ptr", both, [](mc::Reporter& r) { job_permute<PtrF>(r, 5, 8); });
+    m.job("sort/ptr", both, [](mc::Reporter& r) { job_sort<PtrF>(r, 5, 8); });
 #else
 #if !defined(MC_PART) || MC_PART == 1
-    m.job("permute/ptr", both, [](mc::Reporter& r) { job_permute<PtrF>(r, 5, 7); });
-    m.job("permute/fwd", both, [](mc::Reporter& r) { job_permute<FwdF>(r, 5, 7); });
+    m.job("permute/ptr", both, [](mc::Reporter& r) { job_permute<PtrF>(r, 5, 8); });
+    m.job("permute/fwd", both, [](mc::Reporter& r) { job_permute<FwdF>(r, 5, 8); });
 #endif
 #if !defined(MC_PART) || MC_PART == 2
-    m.job("permute/bidi", both, [](mc::Reporter& r) { job_permute<BidiF>(r, 5, 7); });
-    m.job("permute/ra", both, [](mc::Reporter& r) { job_permute<RaF>(r, 5, 7); });
-    m.job("permute/rev", both, [](mc::Reporter& r) { job_permute<RevF>(r, 5, 6); });
+    m.job("permute/bidi", both, [](mc::Reporter& r) { job_permute<BidiF>(r, 5, 8); });
+    m.job("permute/ra", both, [](mc::Reporter& r) { job_permute<RaF>(r, 5, 8); });
+    m.job("permute/rev", both, [](mc::Reporter& r) { job_permute<RevF>(r, 5, 7); });
 #endif
 #if !defined(MC_PART) || MC_PART == 3
-    m.job("sort/ptr", both, [](mc::Reporter& r) { job_sort<PtrF>(r, 5, 7); });
-    m.job("sort/bidi", both, [](mc::Reporter& r) { job_sort<BidiF>(r, 5, 7); });
+    m.job("sort/ptr", both, [](mc::Reporter& r) { job_sort<PtrF>(r, 5, 8); });
+    m.job("sort/bidi", both, [](mc::Reporter& r) { job_sort<BidiF>(r, 5, 8); });
 #endif
 #if !defined(MC_PART) || MC_PART == 4
-    m.job("sort/ra", both, [](mc::Reporter& r) { job_sort<RaF>(r, 5, 7); });
-    m.job("sort/rev", both, [](mc::Reporter& r) { job_sort<RevF>(r, 5, 6); });
+    m.job("sort/ra", both, [](mc::Reporter& r) { job_sort<RaF>(r, 5, 8); });
+    m.job("sort/rev", both, [](mc::Reporter& r) { job_sort<RevF>(r, 5, 7); });
 #endif
 #endif
     return m.run();
